@@ -2,6 +2,7 @@ SPECIFICATION TSpec
 CONSTANTS
   Devs = {"d1", "d2"}
   ParkUnderLock = TRUE
+  RequeueAll = TRUE
   SignalBuffered = TRUE
 CONSTRAINT Mark
 POSTCONDITION Accepted
